@@ -28,7 +28,7 @@ type Program struct {
 	pkgs     []*packages.Package
 	mainPkg  *ssa.Package
 	repoDir  string
-	stubs    map[string]*ssa.Function // full name of replaced function -> harness function
+	stubs    map[string][]stubEntry // full name of replaced function -> harness functions (per call-site file)
 	stubSpec []StubSpec
 	harness  map[string]*HarnessDecl
 	rtErr    types.Type
@@ -40,6 +40,11 @@ type Program struct {
 	assumptions map[string]bool
 	intrCache   sync.Map // *ssa.Function -> intrinsicFn or nil marker
 	noGo        map[string]bool
+}
+
+type stubEntry struct {
+	fn    *ssa.Function
+	files []string
 }
 
 type StubSpec struct {
@@ -140,7 +145,7 @@ func LoadProgram(spec LoadSpec) (*Program, error) {
 	prog, spkgs := ssautil.AllPackages(pkgs, ssa.InstantiateGenerics|ssa.SanityCheckFunctions&0)
 	prog.Build()
 	P := &Program{prog: prog, fset: fset, pkgs: pkgs, repoDir: spec.RepoDir,
-		stubs: map[string]*ssa.Function{}, harness: map[string]*HarnessDecl{},
+		stubs: map[string][]stubEntry{}, harness: map[string]*HarnessDecl{},
 		funcsUsed: map[*ssa.Function]bool{}, modelsUsed: map[string]int{}, assumptions: map[string]bool{}, noGo: map[string]bool{}}
 	P.mainPkg = spkgs[0]
 	if P.mainPkg == nil {
@@ -201,7 +206,7 @@ func LoadProgram(spec LoadSpec) (*Program, error) {
 					if sf == nil {
 						return nil, fmt.Errorf("stub function %s not found", fd.Name.Name)
 					}
-					P.stubs[parts[0]] = sf
+					P.stubs[parts[0]] = append(P.stubs[parts[0]], stubEntry{fn: sf, files: ss.Files})
 				case "opt":
 					for _, p := range strings.Fields(m[2]) {
 						if kv := strings.SplitN(p, "=", 2); len(kv) == 2 {
